@@ -1,7 +1,7 @@
 (* Props/C08.v -- property C08: Integer/Decimal arithmetic is exact; overflow and division by
    zero give empty.  Statements only; proofs are in C08/Proofs.v; the tie of the Integer kernels to
    the Go source is Oblig/C08_gen.v (re-proved on every run over go2v's output). *)
-From FPV Require Import Base.Prelude C08.Model C08.Proofs.
+From FPV Require Import Base.Prelude C08.Model C08.Proofs C08.ProofsDec.
 
 (* + - * on Integers: the exact result, or empty when it leaves the 32-bit range *)
 Theorem C08_int_add_exact : forall i j, int_binop Add i j = if in32b (i + j) then Ok (Some (NInt (i + j))) else Ok None.
@@ -10,6 +10,15 @@ Theorem C08_int_sub_exact : forall i j, int_binop Sub i j = if in32b (i - j) the
 Proof. exact int_sub_exact. Qed.
 Theorem C08_int_mul_exact : forall i j, int_binop Mul i j = if in32b (i * j) then Ok (Some (NInt (i * j))) else Ok None.
 Proof. exact int_mul_exact. Qed.
+(* with a Decimal operand, for coefficients and exponents of any sign and size: + - * are exact, div / mod are the
+   truncated quotient of the exact ratio and the matching remainder, `/` is within 10^-16, zero divisors give empty *)
+Theorem C08_holds_model_dec_bin : forall op a b, is_dec_pair a b -> holds (CBin op a b) (model (CBin op a b)) = true.
+Proof. exact holds_model_dec_bin. Qed.
+Theorem C08_holds_model_dec_un : forall op c e, holds (CUn op (NDec c e)) (model (CUn op (NDec c e))) = true.
+Proof. exact holds_model_dec_un. Qed.
+(* the whole statement: on well-formed operands the model satisfies the property predicate, every operator *)
+Theorem C08_holds_model : forall c, (match c with CBin _ a b => wf_num a /\ wf_num b | CUn _ a => wf_num a end) -> holds c (model c) = true.
+Proof. exact holds_model. Qed.
 Print Assumptions C08_int_mul_exact.
 
 (* any division by zero (/, div, mod; Integer, Decimal or mixed operands) is empty *)
@@ -57,3 +66,4 @@ Theorem C08_holds_model_int_un : forall op i, in32 i ->
   match op with Round _ => True | _ => holds (CUn op (NInt i)) (model (CUn op (NInt i))) = true end.
 Proof. exact holds_model_int_un. Qed.
 Print Assumptions C08_holds_model_int_bin.
+Print Assumptions C08_holds_model.
